@@ -6,7 +6,11 @@ Checked model of `Sources.MarshalBinary` / `Sources.UnmarshalBinary` (ast.go) â€
       var pb internal.Measurements
       pb.Items = make([]*internal.Measurement, len(a))
       for i, source := range a {
-          pb.Items[i] = encodeMeasurement(source.(*Measurement))     -- assertion + store
+          mm, ok := source.(*Measurement)                            -- comma-ok: no panic site
+          if !ok {
+              return nil, fmt.Errorf("cannot encode source of type %T: only measurements can be encoded", source)
+          }
+          pb.Items[i] = encodeMeasurement(mm)                        -- store
       }
       return proto.Marshal(&pb)
   }
@@ -29,9 +33,10 @@ to `proto.Marshal`, `unmarshalItems` starts from the record list `proto.Unmarsha
 elements are non-nil pointers â€” a guarantee of the library). `regexp.Compile` in
 `decodeMeasurement` is a parameter (`compiles`); the text of its error is not modelled.
 
-There is **no** type switch and no comma-ok in `MarshalBinary`: `source.(*Measurement)` is asserted
-for every element, and a `Sources` value may hold `*SubQuery` elements (the parser builds them for
-`FROM (SELECT â€¦)`). See `Props/C13.lean`: `marshalItems_panics_iff`.
+A `Sources` value may hold `*SubQuery` elements (the parser builds them for `FROM (SELECT â€¦)`).
+Before the repair (`fix:` commit in /repo) `MarshalBinary` asserted `source.(*Measurement)` without
+comma-ok and panicked on `SELECT a FROM (SELECT a FROM m)`; now the assertion is comma-ok and a
+non-measurement source is an error. See `Props/C13.lean`: `marshalBinary_no_panic`.
 -/
 namespace InfluxQL.Checked
 open InfluxQL
@@ -45,12 +50,11 @@ structure PbMeasurement where
   isTarget : Option Bool := none
   deriving Repr, DecidableEq, Inhabited
 
-def sMarshalAssert : Site := ("Sources.MarshalBinary", "assert", "source.(*Measurement)")
 def sMarshalItems : Site := ("Sources.MarshalBinary", "index", "pb.Items[i]")
 def sUnmarshalSlot : Site := ("Sources.UnmarshalBinary", "index", "(*a)[i]")
 
-/-- The 3 sites of the codec, in inventory order. -/
-def codecSites : List Site := [sMarshalAssert, sMarshalItems, sUnmarshalSlot]
+/-- The 2 sites of the codec, in inventory order. -/
+def codecSites : List Site := [sMarshalItems, sUnmarshalSlot]
 
 /-- `source.(*Measurement)` with comma-ok. -/
 def sourceAsMeasurement : Source â†’ Option Measurement
@@ -63,10 +67,17 @@ def encodeMeasurement (m : Measurement) : PbMeasurement :=
   { database := some m.database, retentionPolicy := some m.retentionPolicy, name := some m.name,
     regex := m.regex, isTarget := some m.isTarget }
 
-/-- The body of the loop of `MarshalBinary` for one element: assertion, then encoding. -/
-def marshalOne (s : Source) : OpRes (Option PbMeasurement) := do
-  let m â† assertT sMarshalAssert (sourceAsMeasurement s)
-  pure (some (encodeMeasurement m))
+/-- `fmt.Errorf("cannot encode source of type %T: only measurements can be encoded", source)`:
+the only `Source` type besides `*Measurement` is `*SubQuery`. -/
+def errNotMeasurement : Str :=
+  "cannot encode source of type *influxql.SubQuery: only measurements can be encoded".toList
+
+/-- The body of the loop of `MarshalBinary` for one element: comma-ok assertion, the error return,
+then encoding. -/
+def marshalOne (s : Source) : OpRes (Option PbMeasurement) :=
+  match sourceAsMeasurement s with
+  | some m => pure (some (encodeMeasurement m))
+  | none => .err errNotMeasurement
 
 /-- `MarshalBinary` up to the call of `proto.Marshal`: the `pb.Items` it builds (a slice of
 pointers, nil where nothing was stored). -/
